@@ -65,6 +65,7 @@ type thread struct {
 	selIdx int
 	panicV *nd.Panic
 	doPanic string // panic to raise in the thread when it resumes (send on closed channel)
+	sticky  bool   // the thread just passed the point before a channel operation: if the operation is ready it proceeds without another scheduling choice
 }
 
 // Outcome of one controlled execution.
@@ -87,6 +88,7 @@ type sched struct {
 	keep    []reflect.Value // channels known closed are kept alive: their address must not be reused within a run
 	stolen  map[uintptr][]reflect.Value
 	horizon int
+	canon   bool
 	steps   int
 	trace   []string
 	gmap    sync.Map // goroutine id -> *thread
@@ -133,6 +135,11 @@ var liveTrace = os.Getenv("ND_KEEPALL") == "1"
 // Options for Run.
 type Options struct {
 	Horizon int // maximum number of scheduling steps (default 20000)
+	// Canonical runs one fixed schedule instead of exploring: the running thread
+	// keeps running while it can, otherwise the enabled thread with the lowest
+	// id runs, and the first ready select arm is taken. For harnesses whose
+	// quantifier is the input, not the schedule.
+	Canonical bool
 }
 
 // Run executes main as thread 0 under the controlled scheduler and returns
@@ -142,7 +149,7 @@ func Run(c *nd.Ctx, opt Options, main func()) Outcome {
 	if active.Load() != nil {
 		panic("vs: nested Run")
 	}
-	s := &sched{c: c, parked: make(chan *thread), closed: map[uintptr]bool{}, stolen: map[uintptr][]reflect.Value{}, horizon: opt.Horizon}
+	s := &sched{c: c, parked: make(chan *thread), closed: map[uintptr]bool{}, stolen: map[uintptr][]reflect.Value{}, horizon: opt.Horizon, canon: opt.Canonical}
 	if s.horizon == 0 {
 		s.horizon = 20000
 	}
@@ -428,7 +435,7 @@ func (s *sched) apply(t *thread) {
 			break
 		}
 		pick := ready[0]
-		if len(ready) > 1 {
+		if len(ready) > 1 && !s.canon {
 			pick = ready[s.c.Choose(len(ready), "select-arm")]
 		}
 		t.selIdx = pick
@@ -495,6 +502,18 @@ func (s *sched) loop() Outcome {
 		if s.steps > s.horizon {
 			return Outcome{Kind: "horizon", Blocked: s.blocked()}
 		}
+		if s.cur != nil && s.cur.sticky {
+			s.cur.sticky = false
+			if !s.cur.done && s.enabled(s.cur) {
+				t := s.cur
+				if s.c.Keeping() {
+					s.trace = append(s.trace, t.name+": "+t.describe())
+				}
+				s.apply(t)
+				t.wake <- struct{}{}
+				continue
+			}
+		}
 		var en []*thread
 		curEnabled := false
 		if s.cur != nil && !s.cur.done && s.enabled(s.cur) {
@@ -510,7 +529,7 @@ func (s *sched) loop() Outcome {
 			return Outcome{Kind: "deadlock", Blocked: s.blocked()}
 		}
 		pick := 0
-		if len(en) > 1 {
+		if len(en) > 1 && !s.canon {
 			cost := 0
 			if curEnabled {
 				cost = 1 // switching away from a runnable thread is a preemption
@@ -624,6 +643,17 @@ func aborting() bool {
 	return a != nil && a.abort
 }
 
+// prePoint is the scheduling point *before* a blocking channel operation. A
+// thread parked here has not announced itself as a sender/receiver yet, so a
+// partner's non-blocking operation (select with default) does not see it:
+// that is the window in which check-then-wait code loses wake-ups. After it,
+// the thread registers the operation; if that is ready it goes on at once.
+func (s *sched) prePoint(t *thread) {
+	t.op, t.label = opYield, "before channel operation"
+	s.park(t)
+	t.sticky = true
+}
+
 // Send is a rewritten `c <- v`.
 func Send[T any](c chan<- T, v any) {
 	s, t := current()
@@ -634,6 +664,7 @@ func Send[T any](c chan<- T, v any) {
 		c <- conv[T](v)
 		return
 	}
+	s.prePoint(t)
 	t.op, t.ch, t.val = opSend, reflect.ValueOf(c), reflect.ValueOf(conv[T](v))
 	if !t.val.IsValid() {
 		t.val = reflect.Zero(reflect.TypeOf(c).Elem())
@@ -682,6 +713,7 @@ func Recv2[T any](c <-chan T) (T, bool) {
 		v, ok := <-c
 		return v, ok
 	}
+	s.prePoint(t)
 	t.op, t.ch = opRecv, reflect.ValueOf(c)
 	t.label = "chan"
 	s.park(t)
@@ -730,6 +762,15 @@ func Select(cases ...Case) int {
 		if cases[i].dir == 1 && !cases[i].val.IsValid() {
 			cases[i].val = reflect.Zero(cases[i].ch.Type().Elem())
 		}
+	}
+	hasDefault := false
+	for _, cs := range cases {
+		if cs.dir == 2 {
+			hasDefault = true
+		}
+	}
+	if !hasDefault {
+		s.prePoint(t)
 	}
 	t.op, t.cases, t.label = opSelect, cases, "cases"
 	s.park(t)
